@@ -698,6 +698,58 @@ def gen_eventual(out):
     out.append("Definition turn_mode_of_source : turn_mode := %s." % mode)
 
 
+
+# ------------------------------------------------------------------ banana.py: the CLOSE and ABORT clauses of handleData
+def gen_banana_clauses(out):
+    """how handleData treats a CLOSE / an ABORT token that arrives while the index tokens of an OPEN are pending (inOpen)"""
+    mod = P.load("banana.py")
+    hd = P.find_def(mod, "Banana.handleData")
+    clauses = {}
+    for n in ast.walk(hd):
+        if isinstance(n, ast.If) and isinstance(n.test, ast.Compare) and src(n.test.left) == "typebyte" \
+                and len(n.test.ops) == 1 and isinstance(n.test.ops[0], ast.Eq) and src(n.test.comparators[0]) in ("CLOSE", "ABORT"):
+            body = [st for st in n.body if not (isinstance(st, ast.If) and src(st.test) == "self.debugReceive")]
+            if any(src(b) == "continue" for b in body):
+                clauses.setdefault(src(n.test.comparators[0]), []).append(body)
+    if len(clauses.get("CLOSE", [])) != 1 or len(clauses.get("ABORT", [])) != 1:
+        U("handleData: expected exactly one `typebyte == CLOSE` and one `typebyte == ABORT` clause ending in continue")
+    cl = clauses["CLOSE"][0]
+    if [src(x) for x in cl[:1]] != ["count = header"] or src(cl[-1]) != "continue":
+        U("handleData CLOSE clause: unexpected frame")
+    mid = cl[1:-1]
+    guard = None
+    if len(mid) == 2 and isinstance(mid[0], ast.If) and src(mid[0].test) == "self.inOpen and (not self.discardCount)" \
+            and len(mid[0].body) == 1 and isinstance(mid[0].body[0], ast.Raise) and src(mid[0].body[0].exc).startswith("BananaError(") \
+            and not mid[0].orelse:
+        guard = True
+        mid = mid[1:]
+    elif len(mid) == 1:
+        guard = False
+    if guard is None or not (isinstance(mid[0], ast.If) and src(mid[0].test) == "self.discardCount"
+                             and [src(x) for x in mid[0].body if not (isinstance(x, ast.If) and "debugReceive" in src(x.test))] == ["self.discardCount -= 1"]
+                             and [src(x) for x in mid[0].orelse] == ["self.handleClose(count)"]):
+        U("handleData CLOSE clause is not `[index-phase guard]; if self.discardCount: self.discardCount -= 1 else: self.handleClose(count)`")
+    out.append("Definition close_in_index_phase_is_fatal : bool := %s." % ("true" if guard else "false"))
+    ab = clauses["ABORT"][0]
+    calls = [x for x in ast.walk(ast.Module(body=ab, type_ignores=[])) if isinstance(x, ast.Call) and src(x.func) == "self.handleViolation"]
+    if len(calls) != 1:
+        U("handleData ABORT clause: expected exactly one handleViolation call")
+    c = calls[0]
+    kws = {k.arg: src(k.value) for k in c.keywords}
+    tr = [x for x in ab if isinstance(x, ast.Try)]
+    hb = [src(x) for x in tr[0].handlers[0].body] if len(tr) == 1 and len(tr[0].handlers) == 1 else []
+    if kws == {} and not any(x == "self.inOpen = False" for x in hb):
+        mode = "false"
+    elif kws == {"inOpen": "self.inOpen"} and hb and hb[-1] == "self.inOpen = False":
+        mode = "true"
+    else:
+        U("handleData ABORT clause: unrecognised handleViolation call `%s` / handler %s" % (src(c), hb))
+    rej = [x for x in ab if isinstance(x, ast.If) and src(x.test) == "rejected"]
+    if len(rej) != 1 or src(rej[0].body[-1]) != "continue":
+        U("handleData ABORT clause: a rejected ABORT is no longer ignored")
+    out.append("Definition abort_in_index_phase_abandons_sequence : bool := %s." % mode)
+
+
 HEADER = '''
 (* statement language of PendingRequest.complete / fail *)
 Inductive pstmt :=
@@ -748,6 +800,7 @@ def generate():
     gen_callremote(out)
     gen_unslicers(out)
     gen_eventual(out)
+    gen_banana_clauses(out)
     res = {"RequestsGen.v": "\n\n".join(out) + "\n"}
     from translate import g_banana
     res.update(g_banana.generate())
